@@ -178,9 +178,10 @@ func waitDown(limit int) bool {
 }
 
 // parserGoroutines extracts from a runtime.Stack(all) dump the goroutines which are inside
-// the parser package; with blockedOnly=false only those blocked in a channel send are
-// returned: after Parse has returned nobody holds the receiving end any more, so that
-// state is final (a goroutine which is merely slow to exit is runnable/running instead).
+// the parser package. With all=false only those blocked in a channel send are returned:
+// after Parse has returned nobody holds the receiving end any more, so that state is final
+// (a goroutine which is merely slow to exit is runnable/running instead) — the bound of
+// waitDown alone never makes a verdict.
 func parserGoroutines(dump string, all bool) string {
 	var out []string
 	for _, g := range strings.Split(dump, "\n\n") {
